@@ -858,5 +858,83 @@ func gen(seed uint64, tier string) {
 	for i := 0; i < n; i++ {
 		fmt.Fprintln(out, genCase(r, tier).line())
 	}
+	// the wide family: every regime in every run, then random ones
+	nw := 10
+	if tier == "thorough" {
+		nw = 60
+	}
+	for i := 0; i < nw; i++ {
+		fmt.Fprintln(out, genWide(r, i%5).line())
+	}
 	genReflect(out, seed, tier)
+}
+
+// ---------------------------------------------------------------- files beyond go-shp's int16 widths ("wide" family)
+
+// genWide: NewEncoderFromFields / EncodeFields / DecodeRowFields on a field list whose attribute row or header does not
+// fit go-shp's int16 counters (lean/GeomV/C16/Wrap.lean models what go-shp then does; classes `…-wide`, model vs code
+// only): regime 0 row of 32768..65535 bytes (wrapped NEGATIVE: every EncodeFields panics in writeEmptyRecord after the
+// shape was written), 1 row of exactly 65536 bytes (wrapped to 0: index fault), 2 row > 65536 bytes (wrapped to a small
+// positive length: overlapping rows), 3 header >= 32768 bytes (1023+ columns: the constructor panics), 4 the last
+// widths that fit (128 columns of 255 bytes; 1022 columns).
+func genWide(r *vproto.Rng, regime int) fcase {
+	var c fcase
+	c.w.path = 'F'
+	c.w.shpTyp = 1
+	ncols, size := 129, 255
+	switch regime {
+	case 0:
+		ncols, size = 129+r.Intn(128), 255
+	case 1:
+		ncols, size = 257, 255
+	case 2:
+		ncols, size = 258+r.Intn(40), 255
+	case 3:
+		ncols, size = 1023+r.Intn(6), 1+r.Intn(3)
+	default:
+		if r.Intn(2) == 0 {
+			ncols, size = 128, 255
+		} else {
+			ncols, size = 1022, 1+r.Intn(2)
+		}
+	}
+	for i := 0; i < ncols; i++ {
+		sz := size
+		if regime == 0 && i == 0 {
+			sz = 1 + r.Intn(255) // the row length then falls anywhere in the wrapped range
+		}
+		c.w.ff = append(c.w.ff, ffield{name: fmt.Sprintf("c%d", i), typ: 'C', size: sz})
+	}
+	nrec := r.Intn(5)
+	for i := 0; i < nrec; i++ {
+		var rc rec
+		rc.g = geom.Point{X: float64(r.Intn(100)), Y: float64(r.Intn(100))}
+		nv := r.Intn(4)
+		if r.Intn(4) == 0 {
+			nv = ncols // a value for every column: the positioned writes reach far beyond the rows
+		}
+		for j := 0; j < nv && j < ncols; j++ {
+			s := fmt.Sprintf("v%d_%d", i, j)
+			if len(s) > c.w.ff[j].size {
+				s = s[:c.w.ff[j].size]
+			}
+			rc.vals = append(rc.vals, val{k: 's', s: s})
+		}
+		c.recs = append(c.recs, rc)
+	}
+	c.r.path = 'F'
+	nn := r.Intn(4)
+	for i := 0; i < nn; i++ {
+		switch r.Intn(5) {
+		case 0:
+			c.r.names = append(c.r.names, "c0")
+		case 1:
+			c.r.names = append(c.r.names, fmt.Sprintf("C%d", ncols-1))
+		case 2:
+			c.r.names = append(c.r.names, "nosuch")
+		default:
+			c.r.names = append(c.r.names, fmt.Sprintf("c%d", r.Intn(ncols)))
+		}
+	}
+	return c
 }
